@@ -226,7 +226,14 @@ class Soap11(XmlDocument):
 
         ctx.in_document = envelope_xml
 
+        if body_document is None or \
+                               not isinstance(body_document.tag, six.string_types):
+            raise Fault('Client.SoapError', 'Soap body is empty!')
+
         if body_document.tag == '{%s}Fault' % self.ns_soap_env:
+            if message is self.REQUEST:
+                raise Fault('Client.SoapError', 'A fault is not a request!')
+
             ctx.in_body_doc = body_document
 
         else:
